@@ -74,11 +74,15 @@ class Ctx:
         return "%s!%d" % (base, n)
 
     # ---- path condition ---------------------------------------------------
-    def assume(self, cond, check=False):
+    def assume(self, cond, check=False, defer=False):
+        """defer=True: the fact is part of the path condition of every obligation but is kept out of
+        the incremental solver that decides path feasibility (heavy nonlinear definitional facts)"""
         cond = _b(cond)
         if z3.is_true(cond):
             return
         self.pc.append(cond)
+        if defer:
+            return
         self.solver.add(cond)
         if z3.is_false(cond):
             raise PathAbort("assume false")
@@ -232,9 +236,24 @@ class Ctx:
         goal = _b(goal)
         ob = Obligation(oid, self.pc, goal, kind, note, self.path_no)
         self.obligations.append(ob)
+        if z3.is_true(z3.simplify(goal)):
+            ob.status, ob.backend, ob.time_s = "proved", "simplify", 0.0
+            return
         # fast path: the path's incremental solver already holds pc.  Only `unsat` is
         # accepted here (fewer facts than the full query -> still valid); anything else
         # goes to the full discharge with all hint instances.
+        t0 = time.time()
+        try:
+            from . import ratfun
+            if ratfun.prove(self.solver, goal):
+                ob.status = "proved"
+                ob.backend = "ratfun"
+                ob.time_s = time.time() - t0
+                self.solver.set("timeout", FEAS_TIMEOUT_MS)
+                return
+            self.solver.set("timeout", FEAS_TIMEOUT_MS)
+        except Exception:
+            self.solver.set("timeout", FEAS_TIMEOUT_MS)
         t0 = time.time()
         try:
             from .proxies import hint_facts
